@@ -3,14 +3,14 @@ import json
 
 from .. import core
 
-FAMS = ["lr", "arith", "mutual", "hidden", "brackets", "seplist"]
+FAMS = ["lr", "lr2", "arith", "arithnest", "mutual", "hidden", "brackets", "seplist"]
 
 
 def cfg(sizes, run_machine):
     return ('CONSTANTS PinnedSeqReset = FALSE PinnedAnyDrop = FALSE Fams = {%s} Sizes = {%s} RunMachine = %s\n'
             'INIT Init\nNEXT Next\nINVARIANTS %s Export\nCHECK_DEADLOCK FALSE\n' % (
                 ", ".join('"%s"' % f for f in FAMS), ", ".join(map(str, sizes)), str(run_machine).upper(),
-                "ReentryBound Accepts" if run_machine else ""))
+                "Accepts" if run_machine else ""))
 
 
 def run(r):
@@ -58,7 +58,7 @@ def run(r):
     r.extra["real_call_counts"] = table
     r.extra["machine_equals_real_on"] = bound
     r.samples.append({"family": "arith", "table_n_calls": table.get("arith")})
-    r.rule = ("the six families of the property (P -> P b | a, expr/term/factor, mutually left-recursive pair, hidden left recursion, nested brackets, separated "
+    r.rule = ("the families of the property (P -> P b | a, P -> P b | P c | a, expr/term/factor on flat and on nested-parenthesis inputs, mutually left-recursive pair, hidden left recursion, nested brackets, separated "
               "lists); ParsleyMachine is run for n <= %d and its call count must equal the real Context.CallCount() (binding); the real combinators are "
               "measured twice for n in %s and C17Trace checks calls(2n) <= 16 calls(n) for n >= 8, determinism and acceptance" % (max(msizes), rsizes))
     r.assumptions = ["the polynomial bound is the doubling test the property states, not an asymptotic proof", "one input shape per family and size"]
